@@ -224,10 +224,15 @@ def drainFilter (m : Map) (p : Pred) (take : Nat) (forget : Bool) (o : Orc) : Ex
           .ok (m2, { ret := .ents yielded, cost := cost + cost2 + { dropped := idsOf dropped },
                      returned := idsOf yielded })
 
+/-- the cached iterator claims more elements than the old table holds (`into_iter_from`'s
+    precondition would be violated) -/
+def overCount (m : Map) : Bool :=
+  match m.lo with | some ol => decide (ol.ents.length < ol.cursor) | none => false
+
 /-- `drain()`, `take` items pulled, then dropped or forgotten. -/
 def drain (m : Map) (take : Nat) (forget : Bool) (o : Orc) : Except Fault (Map × Out) :=
   if !drainOrderOk m o.calls then .error (.oracle "drain: order is not old-then-main")
-  else if (match m.lo with | some ol => decide (ol.ents.length < ol.cursor) | none => false) then
+  else if overCount m then
     .error (.ub "into_iter_from: iterator count exceeds the table's elements")
   else
     let all := o.calls.filterMap (fun k => (m.find k).map (·.2))
